@@ -140,7 +140,7 @@ def behaviours_from_tlc(chk, cfgname, seed, timeout=3600, simulate=None):
     return out
 
 
-def rand_instance(rng, maxn=6, maxT=6, allow=('ne', 'W', 'nodes', 'cuts', 'linked', 'skip', 'second'), p_edges=0.6):
+def rand_instance(rng, maxn=6, maxT=6, allow=('ne', 'W', 'nodes', 'cuts', 'linked', 'skip', 'second'), p_edges=0.6, p_linked=0.2):
     n = rng.randint(2, maxn)
     nodes = list(range(1, n + 1))
     nbrs = {i: [] for i in nodes}
@@ -167,8 +167,8 @@ def rand_instance(rng, maxn=6, maxT=6, allow=('ne', 'W', 'nodes', 'cuts', 'linke
                    'dN': [rng.choice(dvals) for _ in range(T)], 'lN': [rng.choice(vals) for _ in range(T)],
                    'ti': [rng.choice([1, 1, 1, 0, 2]) for _ in range(T)]}
     linked, skip = {}, {}
-    if 'linked' in allow and only_edges and len(edges) >= 2 and rng.random() < 0.2:
-        for _ in range(rng.randint(1, 2)):
+    if 'linked' in allow and only_edges and len(edges) >= 2 and rng.random() < p_linked:
+        for _ in range(rng.randint(1, 3)):
             a, b = rng.sample(edges, 2)
             linked.setdefault(a, []).append(b)
     if 'skip' in allow and rng.random() < 0.2:
@@ -323,7 +323,7 @@ PLAN = {
     'C01': dict(mc='LatticeMC_C01', emit='LatticeMC_C01e', rnd=(1600, 12000), allow=('nodes', 'cuts', 'linked'), kinds=(), aux=()),
     'C02': dict(mc='LatticeMC_C02', emit='LatticeMC_ALLe', rnd=(700, 8000), allow=('ne', 'W', 'nodes', 'cuts', 'linked', 'skip', 'second'), kinds=('extend', 'widen'), aux=()),
     'C03': dict(mc='LatticeMC_C03', emit='LatticeMC_ALLe', rnd=(400, 6000), allow=('ne', 'W', 'nodes', 'cuts', 'linked', 'skip', 'second'), kinds=('extend', 'widen'), aux=()),
-    'C04': dict(mc='LatticeMC_C04', emit='LatticeMC_ALLe', rnd=(400, 6000), allow=('ne', 'W', 'nodes', 'cuts', 'linked', 'skip', 'second'), kinds=('extend', 'widen'), aux=()),
+    'C04': dict(mc='LatticeMC_C04', emit='LatticeMC_ALLe', rnd=(800, 8000), allow=('ne', 'W', 'nodes', 'cuts', 'linked', 'skip', 'second'), kinds=('extend', 'widen'), aux=()),
     'C05': dict(mc='LatticeMC_C05', emit='LatticeMC_ALLe', rnd=(400, 6000), allow=('ne', 'W', 'nodes', 'cuts', 'linked', 'skip', 'second'), kinds=('extend', 'widen'), aux=()),
     'C06': dict(mc='LatticeMC_C06', emit='LatticeMC_C06e', rnd=(1800, 12000), allow=('ne', 'nodes', 'cuts', 'linked', 'skip'), kinds=(), aux=('C06',)),
     'C07': dict(mc='LatticeMC_C07', emit='LatticeMC_C07e', rnd=(400, 6000), allow=('ne', 'W', 'nodes', 'cuts', 'linked', 'skip', 'second'), kinds=('widen',), aux=('C07',)),
@@ -387,7 +387,10 @@ def run(chk):
             inst, cf = chain_instance(rng, plan['allow'])
         else:
             inst, cf = rand_instance(rng, maxn=6 if thorough else 5, maxT=6 if thorough else 5, allow=plan['allow'],
-                                     p_edges=(0.3 if pid == 'C06' else 0.6))
+                                     p_edges=(0.3 if pid == 'C06' else 0.8 if pid == 'C04' else 0.6),
+                                     p_linked=(0.7 if pid == 'C04' else 0.2))
+            if pid == 'C04' and inst.linked:
+                cf['ne'] = rng.random() < 0.8
         if pid == 'C06':
             cf['ne'] = True
         if pid == 'C07' and not cf['W']:
@@ -656,7 +659,8 @@ def model_part(chk, pid, rng, n):
         inst = geom.gen_instance(rng, maxn=6, maxT=5, G=rng.choice([2, 3, 4]))
         cf = geom.gen_config(rng)
         ops = geo_ops(rng, len(inst['path']), cf, ('extend', 'widen') if i % 3 == 0 else ())
-        rec, exc = geom.model_record(200000 + i, inst, cf, ops, k=(-14 if i % 4 == 1 else 0))
+        k = -14 if i % 4 == 1 else 0
+        rec, exc = geom.model_record(200000 + i, inst, cf, ops, k=k)
         if rec is None:
             continue
         recs.append(rec)
